@@ -15,6 +15,7 @@ CHECKS = {
     "C08": ("harness.checks.axilicfam", "model_checking"),
     "C10": ("harness.checks.axiburstfam", "model_checking"),
     "C11": ("harness.checks.timeoutfam", "model_checking"),
+    "C12": ("harness.checks.csrbankfam", "model_checking"),
     "C13": ("harness.checks.socalloc", "model_checking"),
     "C14": ("harness.checks.exporttruth", "model_checking"),
     "C15": ("harness.checks.eventfam", "model_checking"),
